@@ -359,24 +359,24 @@ Section Records.
   Qed.
 
   (* ---- RHS and RANGES records ---------------------------------------------------------------------------------------- *)
+  (* [sn] is the set name the writer uses ("RHS" / "RANGE" in the code as found) *)
   Definition set_rhs_row (v : Q) (r : xrow) : xrow :=
     {| xw_name := xw_name r; xw_sense := xw_sense r; xw_rhs := v; xw_rhsind := true; xw_rng := xw_rng r |}.
   Definition set_rng_row (g : Q) (r : xrow) : xrow :=
     {| xw_name := xw_name r; xw_sense := xw_sense r; xw_rhs := xw_rhs r; xw_rhsind := xw_rhsind r; xw_rng := Some g |}.
-  Definition rhs_effect (rn : name) (v : Q) (x : xraw) : xraw :=
-    set_rows (set_names x (Some (Some (s2l "RHS"))) (x_rngname x) (x_bndname x)) (upd_row rn (set_rhs_row (rr v)) (x_rows x)).
-  Definition rng_effect (rn : name) (g : Q) (x : xraw) : xraw :=
-    set_rows (set_names x (x_rhsname x) (Some (Some (s2l "RANGE"))) (x_bndname x)) (upd_row rn (set_rng_row (rr g)) (x_rows x)).
-  Definition rhs_line (rn : name) (v : Q) : line := s2l " RHS    " ++ rn ++ s2l "    " ++ print_num v.
-  Definition rng_line (rn : name) (v : Q) : line := s2l " RANGE    " ++ rn ++ s2l "    " ++ print_num v.
+  Definition rhs_effect (sn rn : name) (v : Q) (x : xraw) : xraw :=
+    set_rows (set_names x (Some (Some sn)) (x_rngname x) (x_bndname x)) (upd_row rn (set_rhs_row (rr v)) (x_rows x)).
+  Definition rng_effect (sn rn : name) (g : Q) (x : xraw) : xraw :=
+    set_rows (set_names x (x_rhsname x) (Some (Some sn)) (x_bndname x)) (upd_row rn (set_rng_row (rr g)) (x_rows x)).
+  Definition set_line (sn rn : name) (v : Q) : line := " "%char :: sn ++ s2l "    " ++ rn ++ s2l "    " ++ print_num v.
 
   (* the set-name field followed by the row: [known] = the set name is itself a row name *)
   Lemma setname_row (sn rn : name) v (known : bool) : word sn -> word rn -> (known = true -> numlike rn = false) ->
-    exists t, scan_line ([" "%char] ++ sn ++ s2l "    " ++ rn ++ s2l "    " ++ print_num v) = LTok t /\ t_key t = [] /\ t_fld t = sn /\
+    exists t, scan_line (set_line sn rn v) = LTok t /\ t_key t = [] /\ t_fld t = sn /\
               exists t1 b', possibly_blank true known t = Some (t1, Some sn) /\ t_cur t1 = b' ++ rn ++ s2l "    " ++ print_num v /\ all_blank b' /\
                             t_fnum t1 = 1%nat /\ t_fld t1 = sn /\ line_fuel t = S (List.length (t_cur t)).
   Proof.
-    intros WS WR NL.
+    intros WS WR NL. unfold set_line. change (" "%char :: sn ++ s2l "    " ++ rn ++ s2l "    " ++ print_num v) with ([" "%char] ++ sn ++ s2l "    " ++ rn ++ s2l "    " ++ print_num v).
     assert (MC : mclean (s2l "    " ++ rn ++ s2l "    " ++ print_num v)).
     { apply mclean_app; [reflexivity|]. apply mclean_app; [now apply mclean_word|]. apply mclean_app; [reflexivity|apply mclean_word, word_num]. }
     pose proof (scan_data_line [" "%char] sn (s2l "    " ++ rn ++ s2l "    " ++ print_num v) ltac:(discriminate) eq_refl WS eq_refl MC) as SL.
@@ -387,46 +387,48 @@ Section Records.
     - eexists. exists (s2l "    "). split; [reflexivity|]. repeat split; reflexivity.
   Qed.
 
-  Theorem rhs_record rn v x row : word rn -> x_active x = ARhs ->
-    (x_rhsname x = None \/ x_rhsname x = Some (Some (s2l "RHS"))) ->
+  Lemma set_field_name_same (cur : option (option name)) (sn : name) : (cur = None \/ cur = Some (Some sn)) ->
+    set_field_name cur (Some sn) = (Some (Some sn), false).
+  Proof. intros [-> | ->]; cbn [set_field_name oname_eqb]; [reflexivity|]. now rewrite leqb_refl. Qed.
+
+  Theorem rhs_record sn rn v x row : word sn -> word rn -> x_active x = ARhs ->
+    (x_rhsname x = None \/ x_rhsname x = Some (Some sn)) ->
     find_row rn x = Some row -> xw_rhsind row = false -> xw_sense row <> None ->
-    (has_row (s2l "RHS") x = true -> numlike rn = false) ->
-    exists t, scan_line (rhs_line rn v) = LTok t /\ t_key t = [] /\ line_in_section true M t x = MOk (rhs_effect rn v x).
+    (has_row sn x = true -> numlike rn = false) ->
+    exists t, scan_line (set_line sn rn v) = LTok t /\ t_key t = [] /\ line_in_section true M t x = MOk (rhs_effect sn rn v x).
   Proof.
-    intros WR ACT SN FR RI NS NL.
-    destruct (setname_row (s2l "RHS") rn v (has_row (s2l "RHS") x) ltac:(split; [discriminate|reflexivity]) WR NL)
+    intros WS WR ACT SN FR RI NS NL.
+    destruct (setname_row sn rn v (has_row sn x) WS WR NL)
       as (t & SL & K & F & t1 & b' & PB & C1 & AB & N1 & F1 & LF).
     exists t. split; [exact SL|]. split; [exact K|].
     unfold line_in_section. rewrite ACT. unfold add_rhs. rewrite F, PB.
-    assert (SF : set_field_name (x_rhsname x) (@Some name (s2l "RHS")) = (Some (Some (s2l "RHS")), false)) by (destruct SN as [-> | ->]; reflexivity).
-    rewrite SF.
+    rewrite (set_field_name_same _ sn SN).
     erewrite (mnext_field_word t1 b' rn (s2l "    " ++ print_num v) C1 AB WR); [|reflexivity|right; lia].
     rewrite LF. cbn [rhs_pairs t_fld].
-    assert (FR' : find_row rn (set_names x (Some (Some (s2l "RHS"))) (x_rngname x) (x_bndname x)) = Some row) by exact FR. rewrite FR'.
+    assert (FR' : find_row rn (set_names x (Some (Some sn)) (x_rngname x) (x_bndname x)) = Some row) by exact FR. rewrite FR'.
     erewrite (get_double_num _ (s2l "   ") v []); [|cbn [t_cur]; now rewrite app_nil_r|reflexivity|exact I].
-    rewrite RI. destruct (xw_sense row) as [sn|] eqn:ES; [|congruence].
+    rewrite RI. destruct (xw_sense row) as [s0|] eqn:ES; [|congruence].
     match goal with |- context [mnext_field ?t] => pose proof (mnext_field_end t [] eq_refl eq_refl) as ME; destruct (mnext_field t) as [t2 ok] end.
     cbn [snd] in ME. subst ok. reflexivity.
   Qed.
 
-  Theorem rng_record rn v x row : word rn -> x_active x = ARanges ->
-    (x_rngname x = None \/ x_rngname x = Some (Some (s2l "RANGE"))) ->
+  Theorem rng_record sn rn v x row : word sn -> word rn -> x_active x = ARanges ->
+    (x_rngname x = None \/ x_rngname x = Some (Some sn)) ->
     find_row rn x = Some row -> xw_rng row = None -> xw_sense row <> None ->
-    (has_row (s2l "RANGE") x = true -> numlike rn = false) ->
-    exists t, scan_line (rng_line rn v) = LTok t /\ t_key t = [] /\ line_in_section true M t x = MOk (rng_effect rn v x).
+    (has_row sn x = true -> numlike rn = false) ->
+    exists t, scan_line (set_line sn rn v) = LTok t /\ t_key t = [] /\ line_in_section true M t x = MOk (rng_effect sn rn v x).
   Proof.
-    intros WR ACT SN FR RI NS NL.
-    destruct (setname_row (s2l "RANGE") rn v (has_row (s2l "RANGE") x) ltac:(split; [discriminate|reflexivity]) WR NL)
+    intros WS WR ACT SN FR RI NS NL.
+    destruct (setname_row sn rn v (has_row sn x) WS WR NL)
       as (t & SL & K & F & t1 & b' & PB & C1 & AB & N1 & F1 & LF).
     exists t. split; [exact SL|]. split; [exact K|].
     unfold line_in_section. rewrite ACT. unfold add_ranges. rewrite F, PB.
-    assert (SF : set_field_name (x_rngname x) (@Some name (s2l "RANGE")) = (Some (Some (s2l "RANGE")), false)) by (destruct SN as [-> | ->]; reflexivity).
-    rewrite SF.
+    rewrite (set_field_name_same _ sn SN).
     erewrite (mnext_field_word t1 b' rn (s2l "    " ++ print_num v) C1 AB WR); [|reflexivity|right; lia].
     rewrite LF. cbn [rng_pairs t_fld].
-    assert (FR' : find_row rn (set_names x (x_rhsname x) (Some (Some (s2l "RANGE"))) (x_bndname x)) = Some row) by exact FR. rewrite FR'.
+    assert (FR' : find_row rn (set_names x (x_rhsname x) (Some (Some sn)) (x_bndname x)) = Some row) by exact FR. rewrite FR'.
     erewrite (get_double_num _ (s2l "   ") v []); [|cbn [t_cur]; now rewrite app_nil_r|reflexivity|exact I].
-    rewrite RI. destruct (xw_sense row) as [sn|] eqn:ES; [|congruence].
+    rewrite RI. destruct (xw_sense row) as [s0|] eqn:ES; [|congruence].
     match goal with |- context [mnext_field ?t] => pose proof (mnext_field_end t [] eq_refl eq_refl) as ME; destruct (mnext_field t) as [t2 ok] end.
     cbn [snd] in ME. subst ok. reflexivity.
   Qed.
@@ -440,44 +442,43 @@ Section Records.
   Definition bnd_col (r : mrec) (c : xcol) : xcol :=
     let (b, i) := set_bound M (rec_type r) (rec_val r) (xc_bnd c) (xc_int c) in
     {| xc_name := xc_name c; xc_int := i; xc_sos := xc_sos c; xc_ent := xc_ent c; xc_bnd := b |}.
-  Definition bnd_effect (r : mrec) (cn : name) (x : xraw) : xraw :=
-    set_cols (set_names x (x_rhsname x) (x_rngname x) (Some (Some (s2l "BOUND")))) (upd_col cn (bnd_col r) (x_cols x)).
+  Definition bnd_effect (bn : name) (r : mrec) (cn : name) (x : xraw) : xraw :=
+    set_cols (set_names x (x_rhsname x) (x_rngname x) (Some (Some bn))) (upd_col cn (bnd_col r) (x_cols x)).
 
-  Lemma mrec_line_shape r cn :
-    mrec_line (r, cn) = [" "%char] ++ rec_tyname r ++ s2l " BOUND    " ++ cn ++ match rec_arg r with Some v => s2l "    " ++ print_num v | None => [] end.
-  Proof. destruct r; cbn [mrec_line fst snd rec_tyname rec_arg]; try reflexivity; now rewrite app_nil_r. Qed.
+  Lemma mrec_line_shape bn r cn :
+    mrec_line_gen bn (r, cn) = [" "%char] ++ rec_tyname r ++ ([" "%char] ++ bn ++ s2l "    " ++ cn ++ match rec_arg r with Some v => s2l "    " ++ print_num v | None => [] end).
+  Proof. destruct r; cbn [mrec_line_gen fst snd rec_tyname rec_arg]; try reflexivity; now rewrite app_nil_r. Qed.
 
-  Theorem bnd_record r cn x : word cn -> no_dollar cn -> x_active x = ABounds ->
-    (x_bndname x = None \/ x_bndname x = Some (Some (s2l "BOUND"))) ->
-    has_col cn x = true -> (has_col (s2l "BOUND") x = true -> numlike cn = false) ->
-    exists t, scan_line (mrec_line (r, cn)) = LTok t /\ t_key t = [] /\ line_in_section true M t x = MOk (bnd_effect r cn x).
+  Theorem bnd_record bn r cn x : word bn -> word cn -> no_dollar cn -> x_active x = ABounds ->
+    (x_bndname x = None \/ x_bndname x = Some (Some bn)) ->
+    has_col cn x = true -> (has_col bn x = true -> numlike cn = false) ->
+    exists t, scan_line (mrec_line_gen bn (r, cn)) = LTok t /\ t_key t = [] /\ line_in_section true M t x = MOk (bnd_effect bn r cn x).
   Proof.
-    intros WC ND ACT SN HC NL. rewrite mrec_line_shape.
+    intros WB WC ND ACT SN HC NL. rewrite mrec_line_shape.
     set (tail := match rec_arg r with Some v => s2l "    " ++ print_num v | None => [] end).
     assert (ET : eow tail) by (unfold tail; destruct (rec_arg r); [reflexivity|exact I]).
     assert (MT : mclean tail) by (unfold tail; destruct (rec_arg r); [apply mclean_app; [reflexivity|apply mclean_word, word_num]|reflexivity]).
     assert (WT : word (rec_tyname r)) by (destruct r; split; (discriminate || reflexivity)).
-    assert (MC : mclean (s2l " BOUND    " ++ cn ++ tail)).
-    { apply mclean_app; [reflexivity|]. apply mclean_app; [now apply mclean_word|exact MT]. }
-    pose proof (scan_data_line [" "%char] (rec_tyname r) (s2l " BOUND    " ++ cn ++ tail) ltac:(discriminate) eq_refl WT eq_refl MC) as SL.
+    assert (MC : mclean ([" "%char] ++ bn ++ s2l "    " ++ cn ++ tail)).
+    { apply mclean_app; [reflexivity|]. apply mclean_app; [now apply mclean_word|]. apply mclean_app; [reflexivity|]. apply mclean_app; [now apply mclean_word|exact MT]. }
+    pose proof (scan_data_line [" "%char] (rec_tyname r) ([" "%char] ++ bn ++ s2l "    " ++ cn ++ tail) ltac:(discriminate) eq_refl WT eq_refl MC) as SL.
     eexists. split; [exact SL|]. split; [reflexivity|].
     unfold line_in_section. rewrite ACT. unfold add_bounds. cbn [t_fld].
     assert (BT : btype_of (rec_tyname r) = Some (rec_type r)) by (destruct r; reflexivity). rewrite BT.
-    erewrite (mnext_field_word _ [" "%char] (s2l "BOUND") (s2l "    " ++ cn ++ tail)); [|reflexivity|reflexivity|split; [discriminate|reflexivity]|reflexivity|right; cbn; lia].
+    erewrite (mnext_field_word _ [" "%char] bn (s2l "    " ++ cn ++ tail)); [|reflexivity|reflexivity|exact WB|reflexivity|right; cbn; lia].
     cbn [t_fld t_fnum t_line t_key].
     change (tl (s2l "    " ++ cn ++ tail)) with (s2l "   " ++ cn ++ tail).
     set (t1 := mk_tk (s2l "   " ++ cn ++ tail) _ _ _ _).
-    assert (PB : exists t2 b', possibly_blank true (has_col (s2l "BOUND") x) t1 = Some (t2, @Some name (s2l "BOUND")) /\ t_cur t2 = b' ++ cn ++ tail /\ all_blank b' /\
+    assert (PB : exists t2 b', possibly_blank true (has_col bn x) t1 = Some (t2, @Some name bn) /\ t_cur t2 = b' ++ cn ++ tail /\ all_blank b' /\
                                t_fnum t2 = 2%nat).
-    { unfold possibly_blank. destruct (has_col (s2l "BOUND") x) eqn:HB.
+    { unfold possibly_blank. destruct (has_col bn x) eqn:HB.
       - erewrite (peek_name t1 (s2l "   ") cn tail); [|reflexivity|reflexivity|exact WC|exact ET|now apply NL|left; exact ND].
         eexists. exists []. split; [reflexivity|]. repeat split; reflexivity.
       - exists t1, (s2l "   "). split; [reflexivity|]. repeat split; reflexivity. }
     destruct PB as (t2 & b' & PB & C2 & AB & N2). rewrite PB.
-    assert (SF : set_field_name (x_bndname x) (@Some name (s2l "BOUND")) = (Some (Some (s2l "BOUND")), false)) by (destruct SN as [-> | ->]; reflexivity).
-    rewrite SF.
+    rewrite (set_field_name_same _ bn SN).
     rewrite (mnext_field_word t2 b' cn tail C2 AB WC ET (or_introl ND)). cbn [t_fld].
-    assert (HC' : has_col cn (set_names x (x_rhsname x) (x_rngname x) (Some (Some (s2l "BOUND")))) = true) by exact HC. rewrite HC'. cbn [negb].
+    assert (HC' : has_col cn (set_names x (x_rhsname x) (x_rngname x) (Some (Some bn))) = true) by exact HC. rewrite HC'. cbn [negb].
     unfold bnd_effect, bnd_col, rec_val. unfold tail. destruct r; cbn [rec_type rec_arg needs_value tl app s2l list_ascii_of_string]; try reflexivity;
       (erewrite (next_bound_num M _ (s2l "   ") _); [reflexivity|reflexivity|reflexivity]).
   Qed.
